@@ -165,6 +165,7 @@ TRANSLATORS = {
     "py2lean_glue.py": [],     # accessor / utility control logic: _iteragg, get_calibration_indices, spi, to_linspace, mean_grp accessor
     "py2lean_glue_period.py": [],  # .dekad accessor (Period / DekadPeriod / AccessorTimeBase) over the generated Dekad class; Anomalies
     "py2lean_glue_px.py": [],    # croo (xarray pipeline onto Hdc/PyXr.lean), lroo / autocorr / mktrend accessors, rolling.sum, zonal.mean
+    "summarise_wrappers.py": ["Hdc.Gen.GlueWrappers"],  # iteragg.sum / mean / full (which reduction, forwarded arguments, defaults), HDC registry
     "py2lean_glue_whit.py": [],  # Whittaker accessors: whits, whitsvc, whitswcv, whitint (kernel dispatch, argument slots, defaults, truthiness of p)
 }
 
@@ -348,6 +349,24 @@ class Ctx:
 
     def budget(self, quick, thorough):
         return quick if self.quick else thorough
+
+
+def acc_dispatch(ctx, names):
+    """Validation of the accessor-layer translators (harness/py2lean_glue*.py): the GENERATED glue programs (native driver
+    `hdc-driver-acc`, rebuilt here from the regenerated Hdc/Gen/Glue*.lean) with recording stubs for their library parameters
+    against the REAL accessors with apply_ufunc / map_blocks / kernels replaced by recording stubs, on the full finite grid of
+    abstract inputs (harness/acc_dispatch.py).  A source change the translator could not read leaves the previous generated file
+    in place: the disagreement found here is then the concrete failing call for the broken obligation."""
+    from . import acc_dispatch as ad
+    try:
+        drv = Driver("hdc-driver-acc", rebuild=True)
+    except Infra as e:
+        ctx.notes["accessor_glue_driver"] = "not built (a generated glue module does not elaborate): " + str(e)[-300:]
+        return None
+    n = ad.run(ctx, names, driver=drv)
+    ctx.trusted += ["harness/py2lean_glue*.py (accessor control-logic translators; their reading of Python is validated on every run by "
+                    "harness/acc_dispatch.py: generated program vs real accessor with recording stubs, exhaustive over the abstract input grid)"]
+    return n
 
 
 def jsonable(x):
